@@ -81,7 +81,7 @@ def draw_model(r, name):
     if name == "ThreeField":
         return {"name": name, "p": {"mu": mu, "bulk": bulk}}
     if name == "NearlyIncompressible":
-        return {"name": name, "p": {"mu": mu, "bulk": bulk}}
+        return {"name": name, "p": {"mu": mu, "bulk": bulk}, "vol": r.choice(["default", "log", "log"])}
     if name == "NearlyIncompressibleAD":
         return {"name": name, "p": {"fun": "mooney_rivlin", "C10": round(mu / 3, 4), "C01": round(mu / 6, 4), "bulk": bulk}}
     if name in ("MAD:total_lagrange", "MAD:updated_lagrange"):
@@ -123,7 +123,7 @@ def generate(seed, tier, k):
         doc = gen.gen_job(seed, profile=r.choice(["history", "general"]))
         doc["c03"] = {"mode": "job", "probe_seed": r.randrange(1 << 30), "rate": 0.25}
         return doc
-    name = r.choice(MODELS + list(HISTORY) * 2)
+    name = r.choice(MODELS + list(HISTORY) * 2 + ["NearlyIncompressible", "ThreeField"] * 2)
     # jax models cost ~2 s of jit per run: a few in the quick tier, a fifth of the thorough tier
     if r.random() < (0.2 if tier == "thorough" else 0.01):
         name = r.choice(JAX_MODELS)
